@@ -50,3 +50,45 @@ def register(reg):
   tm[('event', 'is_set')] = ev_is_set
   tm[('event', 'set')] = ev_set
   tm[('event', 'clear')] = ev_clear
+
+  # ---- threading.Thread (also KillableThread subclasses): ghost field thread.alive; join() lets the other thread make
+  # progress: it may finish (alive -> False) and, for a phase thread, publish its outcome (None -> set, never back).
+  reg.shape('threading.Thread', alive='bool')
+
+  def th_start(ex, st, args, kwargs):
+    ex.ctx.use_trusted('threading.Thread.start')
+    ex.event(st, ('thread.start', args[0].t))
+    ex.write_field(st, VRef('threading.Thread', args[0].t), 'alive', VBool(True))
+    return [(st, NONE)]
+
+  def th_is_alive(ex, st, args, kwargs):
+    ex.ctx.use_trusted('threading.Thread.is_alive')
+    return [(st, ex.read_field(st, VRef('threading.Thread', args[0].t), 'alive'))]
+
+  def th_join(ex, st, args, kwargs):
+    ex.ctx.use_trusted('threading.Thread.join')
+    ex.event(st, ('thread.join', args[0].t))
+    th = args[0]
+    was = ex.read_field(st, VRef('threading.Thread', th.t), 'alive').t
+    now = fresh('alive', z3.BoolSort())
+    st.assume(z3.Implies(z3.Not(was), z3.Not(now)))
+    ex.write_field(st, VRef('threading.Thread', th.t), 'alive', VBool(now))
+    hook = reg.join_effects.get(getattr(th.cls, 'name', None))
+    if hook:
+      hook(ex, st, th)
+    return [(st, NONE)]
+  reg.join_effects = {}
+  for k, f in (('start', th_start), ('is_alive', th_is_alive), ('join', th_join)):
+    tm[('threading.Thread', k)] = f
+
+  # ---- time: monotonic() never decreases (ghost clock), sleep has no effect
+  def mono(ex, st, args, kwargs):
+    ex.ctx.use_trusted('time.monotonic')
+    prev = st.ghost.get('$mono')
+    t = fresh('mono', z3.RealSort())
+    if prev is not None:
+      st.assume(t >= prev)
+    st.ghost['$mono'] = t
+    from pyvc.values import VFloat, Flt
+    return [(st, VFloat(Flt.FIN(t)))]
+  reg.externals['time.monotonic'] = lambda ex: __import__('pyvc.values', fromlist=['x']).VBuiltin('time.monotonic', mono)
